@@ -74,6 +74,7 @@ def main():
     ]
     for nm, kind, entries in ents:
         units.append(('ident', nm, kind, entries))
+    units.append(('wide',))
     ck.run_units(units, run_unit)
     ck.finish('quantified rule vs per-member rules on real solver MIR over one symbolic document; z3 decides '
               'truth(quantified) <=> quantifier(count of true members)')
@@ -95,7 +96,49 @@ def quantifier(kind, n, rs):
     return cnt >= n
 
 
+def wide_unit(ck):
+    """*concrete* (labelled): lists far beyond the symbolic bound (65 / 70 / 130 members of one kind, where an engine may
+    split its automaton): all(k) / of(k, n) / the plain list against the count of members that match, on documents whose
+    hits fall at different positions of the list, for three rotations of the member order"""
+    br = ck.bridge()
+    n_rules = 0
+    for size in (65, 70, 130):
+        needles = ['n%03d' % i for i in range(size)]
+        for case in ('', 'i'):
+            for rot in (0, 1, size // 2):
+                order = needles[rot:] + needles[:rot]
+                members = ''.join("    - '%s*%s*'\n" % (case, x) for x in order)
+                hits_sets = [(0, 1), (0, size - 1), (62, 63), (63, 64), (1, 64), (size - 2, size - 1), (5,), (64,), tuple(range(size)), tuple(range(size - 1)), tuple(range(1, size)), ()]
+                for key, want_of in (('all(f)', lambda k: k == size), ('of(f, 2)', lambda k: k >= 2), ('of(f, 0)', lambda k: k == 0), ('f', lambda k: k >= 1),
+                                     ('of(f, %d)' % size, lambda k: k >= size)):
+                    yaml = 'detection:\n  A:\n    %s:\n%s  condition: A\ntrue_positives: []\ntrue_negatives: []\n' % (key, members)
+                    n_rules += 1
+                    for opts in (None, [True, True, True, True]):
+                        for hs in hits_sets:
+                            text = ' '.join(needles[i] for i in hs) or 'zzz'
+                            if case:
+                                text = text.upper()
+                            docj = {'$obj': [[list(b'f'), {'$str': list(text.encode())}]]}
+                            r = br.call(cmd='eval', yaml=yaml, opts=opts, doc=docj, mode='flat')
+                            ck.obligations += 1
+                            want = want_of(len(hs))
+                            if 'verdict' in r and r['verdict'] == want:
+                                ck.discharged += 1
+                                continue
+                            path = ck.write_replay('wide_%s_%d_%s_rot%d' % (key.replace('(', '_').replace(')', '').replace(', ', '_'), size, case or 's', rot),
+                                                   {'rule': yaml, 'opts': opts, 'doc': docj, 'native': r, 'members_matching': len(hs), 'expected': want,
+                                                    'request': {'cmd': 'eval', 'yaml': yaml, 'opts': opts, 'doc': docj, 'mode': 'flat'}})
+                            ck.replays_ok += 1
+                            ck.violations.append((path, 'wide list: %s over %d %smembers (rotation %d, opts %s): %d members match, engine says %r' % (
+                                key, size, 'case-insensitive ' if case else '', rot, opts, len(hs), r.get('verdict', r))))
+                            return
+    ck.extra['wide_list_rules'] = n_rules
+
+
 def run_unit(ck, unit):
+    if unit == ('wide',):
+        wide_unit(ck)
+        return
     quick = ck.tier == 'quick'
     br = ck.bridge()
     bounds = Bounds(str_cap=3 if quick else 4, arr_cap=1, depth=1, kinds=[0, 1, 2, 3, 4, 5])
